@@ -16,8 +16,9 @@ Hypothesis R_frame3 : forall C C', same_core C C' -> c_cfg C' = c_cfg C -> c_cli
 Hypothesis R_dl_refresh : forall C, R C (fst (dl_refresh C)).
 Hypothesis R_with_dl : forall C x, R C (with_dl C x).
 Hypothesis R_apply : forall C i e, R C (fst (apply_bc C i e)).
-Hypothesis R_reqs_app : forall C i q, R C (upd_bc C i (fun b => set_reqs (b_reqs b ++ [q]) b)).
-Hypothesis R_creq : forall C i h f, (forall q, q_owner (f q) = q_owner q) -> R C (upd_creq C i h f).
+Hypothesis R_reqs_app : forall C i q, q_to q = false -> R C (upd_bc C i (fun b => set_reqs (b_reqs b ++ [q]) b)).
+Hypothesis R_creq : forall C i h f,
+  (forall q, q_owner (f q) = q_owner q /\ q_timer (f q) = None /\ (q_to q = true -> q_to (f q) = true)) -> R C (upd_creq C i h f).
 Hypothesis R_clients : forall C cl cl', c_clients C = Some cl -> R C (with_clients C (Some cl')).
 Hypothesis R_newbc : forall C cl node a, c_clients C = Some cl -> assoc node cl = None ->
   R C (with_clients (with_bcs C (c_bcs C ++ [mkBc node (BrokerClient.with_addr BrokerClient.init a) [] None]))
@@ -57,7 +58,7 @@ Proof.
   unfold new_timer.
   assert (R C2 (with_timers C2 (c_timers C2 ++ [TReq i (length (BrokerClient.t_dlog (BrokerClient.s_t (b_st b))))]))) as H3.
   { apply R_frame3; try reflexivity. split; [reflexivity | eexists; reflexivity]. }
-  destruct (first_def mo); cbn [fst]; (eapply R_trans; [exact H1|]; eapply R_trans; [exact H2|]; eapply R_trans; [exact H3|]; apply R_reqs_app).
+  destruct (first_def mo); cbn [fst]; (eapply R_trans; [exact H1|]; eapply R_trans; [exact H2|]; eapply R_trans; [exact H3|]; apply R_reqs_app; reflexivity).
 Qed.
 
 Lemma g2_get_client C cl n C1 i : c_clients C = Some cl -> get_client C cl n = Some (C1, i) -> R C C1.
@@ -102,7 +103,7 @@ Proof.
   set (X := match q_timer q with
             | Some t => (upd_creq C i h (fun q0 => mkCreq (q_owner q0) None (q_to q0)), [OCancelTimer t])
             | None => (C, []) end).
-  assert (R C (fst X)) as H1 by (unfold X; destruct (q_timer q); cbn [fst]; [apply R_creq; reflexivity | apply R_refl]).
+  assert (R C (fst X)) as H1 by (unfold X; destruct (q_timer q); cbn [fst]; [apply R_creq; intro; repeat split; auto | apply R_refl]).
   destruct X as [C1 o1]. cbn [fst] in H1.
   destruct (q_owner q) as [d|p]; [exact H1|].
   destruct (nth_error (c_ops C1) p) as [[k al rid ph]|]; [|exact H1].
@@ -247,7 +248,7 @@ Proof.
     + unfold creq_at. destruct (nth_error (c_bcs C) i) as [b|]; [|apply R_refl].
       destruct (nth_error (b_reqs b) h) as [[ow [t'|] to]|]; try apply R_refl.
       destruct (Nat.eqb t t'); [|apply R_refl].
-      set (C1 := upd_creq C i h _). assert (R C C1) as H1 by (apply R_creq; reflexivity).
+      set (C1 := upd_creq C i h _). assert (R C C1) as H1 by (apply R_creq; intro; repeat split; auto).
       pose proof (g2_ev_bc C1 i (BrokerClient.ECancel h)) as H2. destruct (ev_bc C1 i (BrokerClient.ECancel h)) as [C2 o2]. cbn [fst] in H2.
       destruct (g_dot (c_cfg C2)); cbn [fst]; [|eapply R_trans; eauto].
       pose proof (g2_ev_bc C2 i BrokerClient.EDisconnect) as H3. destruct (ev_bc C2 i BrokerClient.EDisconnect). cbn [fst] in *.
